@@ -95,7 +95,7 @@ Proof. exact fragmentq_selected_match. Qed.
    reports from offset 0 is the specification's selected match - leftmost start, first result in
    priority order (earlier alternative first, greedy longest first, reluctant shortest first).  Both
    parsers' results are shown to enumerate, as lists, the ordered denotation DaO of the grammar tree. *)
-Theorem C02_group_grammar_selected_match :
+Theorem C02_group_grammar_selected_match_partial :
   forall xpath a fls input,
     ok_a xpath a = true -> existsb (N.eqb 59) fls = false -> (N.of_nat (length input) < umax)%N ->
     match spec_flags xpath fls with
@@ -115,7 +115,7 @@ Proof. exact grammar_selected_match. Qed.
 (* every span of the scan, not only the first: the list of (start, end) pairs the loop of tokenize /
    replace_all / analyze goes through is, element by element, the list of the specification's spans
    (leftmost, non-overlapping, each the selected match from the end of the previous one) *)
-Theorem C02_group_grammar_spans :
+Theorem C02_group_grammar_spans_partial :
   forall xpath a fls input,
     ok_a xpath a = true -> existsb (N.eqb 59) fls = false -> (N.of_nat (length input) < umax)%N ->
     match spec_flags xpath fls with
@@ -137,5 +137,5 @@ Print Assumptions C02_fragment_leftmost_first_partial.
 Print Assumptions C02_fragment_selected_match_partial.
 Print Assumptions C02_fragment_order_partial.
 Print Assumptions C02_fragment_quantified_selected_match_partial.
-Print Assumptions C02_group_grammar_selected_match.
-Print Assumptions C02_group_grammar_spans.
+Print Assumptions C02_group_grammar_selected_match_partial.
+Print Assumptions C02_group_grammar_spans_partial.
